@@ -28,6 +28,8 @@ CONSTANTS
   FailSaves = FALSE
   Focus = TRUE
   Record = FALSE
+  Marking = FALSE
+  WindAt = 0
   Gaps = {}
   Bugs = {}
 VIEW view
